@@ -504,7 +504,11 @@ static void iauth_xquery_check(struct iauth_request *req,
                           cli->password);
 
         srv->queries++;
-        srv->refs++;
+        /* A repeated query (a new password while the first answer is
+         * still awaited) is answered for by the reference we hold.
+         */
+        if (!(cli->ref_mask & (1u << ii)))
+            srv->refs++;
         if (!cli->ref_mask)
             req->soft_holds++;
         cli->ref_mask |= 1u << ii;
